@@ -47,7 +47,7 @@ class C07(Check):
     driver = "drv_c07"
     theorems = ["Pox.C07.sites_agree", "Pox.C07.sites_anchored", "Pox.C07.calllater_once", "Pox.C07.calllater_order",
                 "Pox.C07.sync_excludes", "Pox.C07.sync_mutual", "Pox.C07.schedule_atmost1", "Pox.C07.schedule_self_twice", "Pox.C07.schedule_wake_kept",
-                "Pox.C07.wake_noticed", "Pox.C07.hub_mode", "Pox.C07.lock_excl", "Pox.C07.lock_excl_multi", "Pox.C07.lock_handoff",
+                "Pox.C07.wake_noticed", "Pox.C07.incoming_noticed", "Pox.C07.hub_mode", "Pox.C07.lock_excl", "Pox.C07.lock_excl_multi", "Pox.C07.lock_handoff",
                 "Pox.C07.lock_excl_needs_discipline"]
     anchors = []             # computed in setup(): the bodies of the functions listed in harness/translate/sites.py
     design_ref = "DESIGN.md §5 C07, Appendix B"
@@ -141,7 +141,8 @@ class C07(Check):
                 {"users": [[0]], "progs": [[S0, S0], [S0]]},
                 {"users": [[1, 0]], "progs": [[SE, CL, SX], [S0, CL]]},
                 {"users": [[0], [1]], "progs": [[SE, SE, SX, SX, SE, SX], [S0, {"o": "schedule", "t": 1}], [CL]]},
-                {"users": [[3, 1, 3, 0], [2, 0]], "progs": [[S0], [{"o": "schedule", "t": 1}, S0]]},     # tasks waking each other from their slices
+                {"users": [[4, 1, 4, 0], [3, 0]], "progs": [[S0], [{"o": "schedule", "t": 1}, S0]]},     # tasks waking each other from their slices
+                {"users": [[2, 1, 2, 0]], "progs": [[S0, CL], [S0]]},                                     # callLater from cooperative code and from threads
             ]
             for b in base:
                 for seed in range(3):
@@ -160,8 +161,11 @@ class C07(Check):
         for u in range(nu):
             prog = []
             for _ in range(rng.randrange(4)):
-                if nu > 1 and rng.random() < 0.35:
-                    prog.append(2 + rng.choice([v for v in range(nu) if v != u]))      # schedule(another user task) inside the slice
+                r = rng.random()
+                if nu > 1 and r < 0.3:
+                    prog.append(3 + rng.choice([v for v in range(nu) if v != u]))      # schedule(another user task) inside the slice
+                elif r < 0.5:
+                    prog.append(2)                                                     # callLater(f) inside the slice
                 else:
                     prog.append(rng.randrange(2))
             users.append(prog)
@@ -208,7 +212,7 @@ class C07(Check):
         evidence says which scenarios were completed)."""
         CL, SE, SX = {"o": "callLater"}, {"o": "syncEnter"}, {"o": "syncExit"}
         S0 = {"o": "schedule", "t": 0}
-        U01 = [[3, 0], []]                       # user task 0 wakes user task 1 from inside its slice (direct branch)
+        U01 = [[4, 0], []]                       # user task 0 wakes user task 1 from inside its slice (direct branch)
         bases = [
             ([], [[CL], [CL]]),
             ([[0]], [[S0], [S0]]),
@@ -218,6 +222,7 @@ class C07(Check):
             ([], [[CL, CL]]),
             ([], [[CL], [SE, SX]]),
             (U01, [[S0], [{"o": "schedule", "t": 1}]]),
+            ([[2, 0]], [[S0], [CL]]),           # callLater from a cooperative task racing with callLater from a thread
             ([[0]], [[CL], [S0], [SE, SX]]),
         ]
         scen = [(threaded, users, progs) for users, progs in bases for threaded in (False, True)]
@@ -310,14 +315,21 @@ class C07(Check):
                     ctl.yield_point(("user_end", self.idx))
                     if insec: st.insec_violations.append(["user", self.idx, sorted(insec)])
                 def run(self):
-                    # program items: 0 = `yield False`, 1 = `yield 0`, 2+v = `scheduler.schedule(users[v])` inside the slice
+                    # program items: 0 = `yield False`, 1 = `yield 0`, 2 = `scheduler.callLater(f)`,
+                    # 3+v = `scheduler.schedule(users[v])` — the last two inside the slice
                     i, prog = 0, self.prog
                     while True:
                         self.body()
                         while i < len(prog) and prog[i] >= 2:
-                            v = prog[i] - 2; i += 1
-                            st.wake_marks.append([v, len(st.slices)])
-                            sched.schedule(users[v])
+                            it = prog[i]; i += 1
+                            if it == 2:
+                                f = functools.partial(callback, 0, st.snsub)
+                                st.submitted.append([0, st.snsub]); st.snsub += 1
+                                sched.callLater(f)
+                            else:
+                                v = it - 3
+                                st.wake_marks.append([v, len(st.slices)])
+                                sched.schedule(users[v])
                         if i < len(prog):
                             y = prog[i]; i += 1
                             yield (0 if y == 1 else False)
@@ -866,11 +878,17 @@ class C07(Check):
                   "foreign threads, threaded and inline hub: calllater_once/calllater_order (submitted = executed ++ in-flight ++ pending as "
                   "lists, no duplicates, executed only by the scheduler thread, per-submitter order); sync_excludes/sync_mutual (a foreign "
                   "thread inside synchronized() => the scheduler thread is parked in that thread's SyncTask at outlock.acquire(); at most one "
-                  "thread inside); schedule_atmost1 (a task woken through schedule() occurs at most once in `ready`, never while it runs or is "
-                  "about to be re-queued) and schedule_wake_kept (when a ScheduleTask ends its target is in `ready`); wake_noticed (parked in "
+                  "thread inside); schedule_atmost1 (a task woken through schedule() — from foreign threads via ScheduleTasks and from other "
+                  "cooperative tasks via the direct branch — occurs at most once in `ready`, never while it runs or is about to be re-queued; "
+                  "hypothesis: no task schedules itself, and schedule_self_twice shows that documented exception is real) and "
+                  "schedule_wake_kept (when a ScheduleTask ends its target is in `ready`); wake_noticed (parked in "
                   "Event.wait/select with `ready` non-empty => flag set / pipe non-empty or some thread's next action sets/pings it; deque of "
                   "calls non-empty => CallLaterTask's pipe non-empty, or a ping is the next action of some thread, or the task is in its drain "
-                  "loop); hub_mode. About Model/CoopLock.lean, for every operation sequence of any number of tasks that only release what they "
+                  "loop); incoming_noticed (the hub's own _incoming queue non-empty => hub pipe non-empty, or the ping is the scheduler "
+                  "thread's next action, or the hub runner is in its drain loop — unless the runner died of its own assertion, which is only "
+                  "tested); hub_mode.  Call-later hand-over is modelled from foreign threads AND from cooperative code on the scheduler thread "
+                  "(calllater_once numbers each submitter's calls 0,1,2,… incl. tid 0).  About Model/CoopLock.lean, lock_excl_multi: the same "
+                  "for any number of locks and tasks; and for one lock: for every operation sequence of any number of tasks that only release what they "
                   "were handed: lock_excl (believers = the holder, at most one; no waiter while free), lock_handoff (release wakes exactly the "
                   "popped waiter, who becomes holder; none if nobody waits); lock_excl_needs_discipline shows the hypothesis is necessary. "
                   "TIED to the source on every run by (a) sites_agree: the ast translator's per-function statement lists equal the model's table "
@@ -889,13 +907,14 @@ class C07(Check):
                   "(one OS thread at a time, virtual blocking, Lock/Event/Queue/pinger/select replaced by instrumented versions; the pipe "
                   "pinger's byte-counter semantics is checked separately against the real PipePinger); real OS scheduling, real time-outs, epoll "
                   "and free-threaded builds are not exercised.  Not modelled (C06's territory): timers and fd waits of ordinary tasks, "
-                  "priorities < 1, quit, CallBlocking, and schedule()/callLater() calls made by cooperative tasks themselves (direct branch of "
-                  "schedule, recoco.py schedule() lines `if task in self._ready` ... `return True`).  Known unmodelled hazard (by reading, not "
+                  "priorities < 1, quit, CallBlocking, callbacks that hand over further calls; evidence.sites.not_modelled lists every statement "
+                  "of the listed functions that is not modelled.  Known unmodelled hazard (by reading, not "
                   "reproduced): schedule(t) for a task t that is at the same time parked in the *threaded* hub (Select/Sleep with time-out) "
                   "races with the hub thread's own fast_schedule(t); nothing in the tree does that.  The liveness reading of 'runs exactly "
                   "once' (eventually executed) is covered by wake_noticed + the quiescence oracle, not by a temporal theorem.")
     rule = ("threads case = (hub mode, user-task yield programs, per-foreign-thread operation lists over {callLater, schedule(u), syncEnter, "
-            "syncExit}, schedule = PCT(seed,d,k) | random(seed) | baseline + explicit pre-emptions); lock case = per-task programs over "
+            "syncExit}, user programs over {yield False, yield 0, callLater, schedule(other user)}, schedule = PCT(seed,d,k) | random(seed) | "
+            "baseline + explicit pre-emptions); lock case = per-task programs over "
             "{acquire(l, blocking), release(l), yield} on 1-2 locks, 2-4 tasks; pinger case = ping/pongAll sequence; distinct = sha1 of the "
             "canonical case; non-trivial = the executed trace switches threads at least 4 times (threads) / some task had to wait (lock)")
     trusted_base = ["Model/Handoff.lean, Model/CoopLock.lean, Model/HandoffSites.lean hand-written from recoco.py; tied by sites_agree + trace validation",
@@ -918,6 +937,7 @@ class _RunState:
         self.slices, self.executed, self.submitted, self.wake_marks = [], [], [], []
         self.insec_violations, self.wrong_thread, self.timeouts = [], [], []
         self.dup_ready = False
+        self.snsub = 0
         self.completed = []
 
 
